@@ -2,6 +2,7 @@ mod alloc;
 mod c12;
 mod c13;
 mod cbor_gen;
+mod hosttargets;
 mod targets;
 
 use vkit::Property;
